@@ -38,7 +38,7 @@ DESIGN_REF = "DESIGN.md §3 C14"
 MIN_COUNTERS = {"quick": {"scenarios": 780, "ops_checked": 2500, "dryrun_ops": 500, "posts_checked": 2500, "cookie_requests_checked": 2500, "loopback_scenarios": 60, "audit_net_events": 3000, "ops_with_transport_failure": 400},
                 "thorough": {"scenarios": 15000, "ops_checked": 50000, "dryrun_ops": 10000, "posts_checked": 50000, "cookie_requests_checked": 50000, "loopback_scenarios": 1200, "audit_net_events": 60000, "ops_with_transport_failure": 8000}}
 
-OPS = ["stmt", "stmtend", "acctinfo", "tax", "profile"]
+OPS = ["stmt", "stmtend", "acctinfo", "tax", "profile", "stmt", "acctinfo", "profile-override"]
 
 
 def shards(tier):
@@ -72,7 +72,15 @@ def gen_scenario(rng, idx, loopback_base=None):
         clients.append({"tag": tag, "profile_url": prof, "service_url": svc, "userid": f"user{tag}{idx}"[:32], "password": f"CANARY-{tag}-{rng.getrandbits(48):012x}",
                         "org": rng.choice([None, "ORG" + tag]), "fid": rng.choice([None, "77" + tag]), "useragent": rng.choice([None, f"Agent{tag}/1.0"]),
                         "version": rng.choice([102, 103, 160, 203, 220]), "cookies": rng.random() < 0.7,
-                        "advertise": rng.choice(["single"] * 5 + ["multi", "none"])})
+                        "advertise": rng.choice(["single"] * 5 + ["multi", "none"]),
+                        # from this operation on (index into ops) the institution publishes a NEWER profile that moves the service URL
+                        "update_at": rng.choice([None, None, 1, 2, 3, 4])})
+    for c in clients:  # one institution (profile URL), one publication history
+        first = next(x for x in clients if x["profile_url"] == c["profile_url"])
+        c["update_at"] = first["update_at"]
+        if first is not c:
+            c["service_url"] = first["service_url"]
+            c["advertise"] = first["advertise"]
     ops = []
     for _ in range(rng.randint(1, 8)):
         c = rng.choice(clients)
@@ -119,7 +127,10 @@ class Recorder:
                 svc = {"bank": c["service_url"], "cc": c["service_url"] + "-cc", "inv": c["service_url"] + "-inv"}
             elif c and c.get("advertise") == "none":
                 svc = {"bank": None, "cc": None, "inv": None}
-            return Reply(ofxserver.profile_ok("20200101000000.000[+0:UTC]", svc, c["profile_url"] if c else "x", finame="FI" + str(tag)), headers=headers)
+            dt = "20200101000000.000[+0:UTC]"
+            if c and c.get("advertise") == "single" and c.get("update_at") is not None and getattr(self, "op_index", 0) >= c["update_at"]:
+                dt, svc = "20210615000000.000[+0:UTC]", c["service_url"] + "-v2"
+            return Reply(ofxserver.profile_ok(dt, svc, c["profile_url"] if c else "x", finame="FI" + str(tag)), headers=headers)
         return Reply(ofxserver.statement_ok(), headers=headers)
 
 
@@ -135,15 +146,16 @@ def run_scenario(ctx, scen, net):
         kw = {k: c[k] for k in ("userid", "org", "fid", "useragent", "version") if c[k] is not None}
         objs[c["tag"]] = OFXClient(c["profile_url"], bankid="123456789", brokerid="broker.example", **kw)
     history = []
-    for op in scen["ops"]:
+    for oi, op in enumerate(scen["ops"]):
+        rec.op_index = oi
         c = next(x for x in scen["clients"] if x["tag"] == op["client"])
         cl = objs[c["tag"]]
         net.set_client(c["tag"])
         kw = {"dryrun": op["mode"] == "dryrun"}
-        if op["op"] != "profile":
+        if op["op"] not in ("profile", "profile-override"):
             kw["skip_profile"] = op["mode"] == "skip"
         n0, a0 = len(net.records), AUDIT.mark()
-        rec.fault, rec.fault_on_profile = op.get("fault"), op["op"] == "profile"
+        rec.fault, rec.fault_on_profile = op.get("fault"), op["op"] in ("profile", "profile-override")
         try:
             if op["op"] == "stmt":
                 r = cl.request_statements(c["password"], StmtRq(acctid="111", accttype="CHECKING"), CcStmtRq(acctid="222"), **kw)
@@ -153,6 +165,9 @@ def run_scenario(ctx, scen, net):
                 r = cl.request_accounts(c["password"], datetime.datetime(2020, 1, 1, tzinfo=UTC), **kw)
             elif op["op"] == "tax":
                 r = cl.request_tax1099(c["password"], "2019", acctnum="9", **kw)
+            elif op["op"] == "profile-override":
+                # the per-call url= override: this one request goes elsewhere; nothing of it may stick to the client
+                r = cl.request_profile(url=c["profile_url"] + "-alt", **kw)
             else:
                 r = cl.request_profile(**kw)
             outcome = ("ok", r.read())
@@ -164,7 +179,7 @@ def run_scenario(ctx, scen, net):
     return history, rec
 
 
-WANT_KINDS = {"stmt": ["stmt", "ccstmt"], "stmtend": ["stmtend"], "acctinfo": ["acctinfo"], "tax": ["tax1099"], "profile": ["profile"]}
+WANT_KINDS = {"stmt": ["stmt", "ccstmt"], "stmtend": ["stmtend"], "acctinfo": ["acctinfo"], "tax": ["tax1099"], "profile": ["profile"], "profile-override": ["profile"]}
 
 
 def check_history(ctx, scen, history, rec):
@@ -173,13 +188,16 @@ def check_history(ctx, scen, history, rec):
     case = {"scenario": scen}
     all_canaries = {c["password"]: c["tag"] for c in scen["clients"]}
     cookies_given = {}  # (client tag, host) -> set of cookie values that client must replay to that host
-    for h in history:
-        op, c = h["op"], h["client"]
+    for hi, h in enumerate(history):
+        op, c = h["op"], dict(h["client"])
+        if c.get("advertise") == "single" and c.get("update_at") is not None and hi >= c["update_at"]:
+            c["service_url"] = c["service_url"] + "-v2"  # the newer profile is the one that counts from here on
+            ctx.count("ops_after_profile_update")
         ctx.ev()
         ctx.count("ops_checked")
         tag = f"{op['op']}/{op['mode']}"
         posts = h["records"]
-        ambiguous = c.get("advertise", "single") != "single" and op["mode"] == "normal" and op["op"] != "profile"
+        ambiguous = c.get("advertise", "single") != "single" and op["mode"] == "normal" and op["op"] not in ("profile", "profile-override")
         if ambiguous:
             # the profile advertises several different service URLs, or none: the library may refuse; what it
             # must never do is send the credentials to a URL the profile does not advertise
@@ -192,7 +210,9 @@ def check_history(ctx, scen, history, rec):
         if op.get("fault") and op["mode"] != "dryrun":
             # the server failed after taking the request: the call fails, and the request was sent once - not repeated behind the caller's back
             ctx.count("ops_with_transport_failure")
-            if op["op"] == "profile" or op["mode"] == "skip":
+            if op["op"] == "profile-override":
+                want_urls = [c["profile_url"] + "-alt"]
+            elif op["op"] == "profile" or op["mode"] == "skip":
                 want_urls = [c["profile_url"]]
             else:
                 want_urls = [c["profile_url"], c["service_url"]]
@@ -212,7 +232,9 @@ def check_history(ctx, scen, history, rec):
             if posts or h["audit"]:
                 ctx.violation("dryrun-touches-network", f"dry run {tag} produced {len(posts)} requests and audit events {[e[1] for e in h['audit']][:5]}", case)
             continue
-        if op["op"] == "profile":
+        if op["op"] == "profile-override":
+            expect = [("profile", c["profile_url"] + "-alt")]
+        elif op["op"] == "profile":
             expect = [("profile", c["profile_url"])]
         elif op["mode"] == "skip":
             expect = [(op["op"], c["profile_url"])]
